@@ -1,6 +1,7 @@
 //! Suite registry: one module per correspondence suite; `lookup` maps a suite name to its runner.
 pub mod bankops;
 pub mod curve;
+pub mod oracle;
 pub mod panic;
 pub mod prefee;
 pub mod xrate;
@@ -12,6 +13,9 @@ pub fn lookup(name: &str) -> Option<fn(&str) -> String> {
         "bankops" => bankops::run,
         "prefee" => prefee::run,
         "xrate" => xrate::run,
+        "oracle" => oracle::run,
+        "oraclerisk" => oracle::run_risk,
+        "oracleliq" => oracle::run_liq,
         _ => return None,
     })
 }
